@@ -8,6 +8,8 @@
 -/
 import PdbVerif.Proofs.TableAssign
 import PdbVerif.Proofs.TableWorld
+import PdbVerif.Proofs.TableWorldText
+import PdbVerif.Props.C02
 import PdbVerif.Props.C03
 
 set_option linter.unusedVariables false
@@ -122,6 +124,58 @@ theorem derived_and_source_independent (rt : Table → Table) (w : World) (d : W
   refine ⟨independence_step rt w d j hj (fun m' => hd j m'), ?_⟩
   intro i hij hi
   exact independence_step rt _ (.modify j m) i hi (fun m' e => by injection e with e1 _; exact hij e1.symm)
+
+/-! ### the round trip instantiated: `roundtrip := parse ∘ export` (cluster A's C01 / C02 models) -/
+
+/-- on rows that fit the PDB columns (C02's `Fits`, non-blank chain, coordinates in range) the concrete round trip
+    `Model.textRoundtrip` (every row written by the translated `data2pdb`, the lines parsed by the record loop) is,
+    row by row and in order, `Proofs.Line.readBack`: model 0, no added columns -/
+theorem roundtrip_is_readBack (T : Table) (h : ∀ r ∈ T, RowFits r) : Model.textRoundtrip T = T.map rbRow :=
+  textRoundtrip_eq T h
+
+/-- **snapshot to PDB text precision**: with the concrete round trip, the object a sub-selection call returns
+    holds, row by row and in order, the read-back of the source's selected rows as they are at that moment —
+    text and integer attributes identical, every coordinate within half a unit of the precision it was printed
+    with, occupancy and B-factor within 0.005 (`Spec.readBackOK`, C02's criterion) -/
+theorem snapshot_text_precision (w : World) (k : Nat) (o : Obj) (hk : w[k]? = some o) (hkind : o.kind = .single)
+    (t0 : Tab) (rest : List Tab) (htabs : o.db.tabs = t0 :: rest) (hwf : WF o.db)
+    (kw : List Kw) (hkeys : KeysOK o.db kw) (hr : RowIDInts kw) (hnm : o.db.nModel = 0)
+    (hmany : Spec.tooMany Gen.max_sql_values Gen.SQLITE_LIMIT_VARIABLE_NUMBER kw = false)
+    (hfits : ∀ r ∈ t0.rows, RowFits r) :
+    ∃ rows, Spec.snapshotRows o.db.extra t0.rows kw = some rows ∧
+      wstep Model.textRoundtrip w (.deriveSub k kw) =
+        (if rows.isEmpty then (w, .error .indexError)
+         else (w ++ [{ kind := .single, db := { tabs := [{ name := t0.name, rows := rows.map rbRow }] } }], .ok ())) ∧
+      ∀ r ∈ rows, Spec.readBackOK r.atom (rbRow r).atom (Proofs.Xyz.xyzClass r.atom.x) (Proofs.Xyz.xyzClass r.atom.y)
+        (Proofs.Xyz.xyzClass r.atom.z) = true := by
+  obtain ⟨rows, h1, h2⟩ := snapshot Model.textRoundtrip w k o hk hkind t0 rest htabs hwf kw hkeys hr hnm hmany
+  have hsub : ∀ r ∈ rows, r ∈ t0.rows := by
+    intro r hr'
+    unfold Spec.snapshotRows at h1
+    cases hq : kw.mapM (Spec.condOf (o.db.extra.map (·.name))) with
+    | none => rw [hq] at h1; cases h1
+    | some q =>
+      rw [hq] at h1
+      simp only [Option.map_some, Option.some.injEq] at h1
+      subst h1
+      obtain ⟨rp, hrp, rfl⟩ := List.mem_map.1 hr'
+      exact mem_of_mem_zipIdx _ _ (List.mem_filter.1 hrp).1
+  refine ⟨rows, h1, ?_, ?_⟩
+  · rw [h2, textRoundtrip_eq rows (fun r hr' => hfits r (hsub r hr'))]
+  · intro r _
+    exact Proofs.Line.readBackOK_export r.atom
+
+/-- **idempotence**: deriving again from the derivative changes nothing further (off the two coordinate values
+    999999.5 / −99999.5 where a second export switches precision, cf. C02's `reexport_value_drift_at_threshold`) -/
+theorem derive_again_changes_nothing (T : Table) (h : ∀ r ∈ T, RowFits r) (ho : ∀ r ∈ T, OffThresholds r) :
+    Model.textRoundtrip (Model.textRoundtrip T) = Model.textRoundtrip T :=
+  textRoundtrip_idem T h ho
+
+/-- non-vacuity: C02's demonstration row fits, so a table made of it satisfies `RowFits` -/
+example : ∀ r ∈ [({ atom := Props.C02.demo, extra := [.int 3] } : Row)], RowFits r := by
+  intro r hr
+  simp only [List.mem_singleton] at hr; subst hr
+  exact Props.C02.demo_fits
 
 /-- non-vacuity of `snapshot`: a one-object world and a selection by chain satisfy its hypotheses; and a concrete
     history (derive, then modify the source) leaves the derivative untouched by `independence` -/
